@@ -353,7 +353,7 @@ pub fn run(ctx: &Ctx) {
     // (f) acceptance and the recovered address are functions of the frame alone: families of related inputs (a
     // truncated or padded copy before the frame, the same payload under another header or address, one bit apart)
     // evaluated in several orders on one thread
-    crate::frames::drive_families(ctx, "c02", ctx.tier.pick(64_000, 400_000), &gate_observable);
+    crate::frames::drive_families(ctx, "c02", ctx.tier.pick(64_000, 200_000), &gate_observable);
     let _ = parity(&[0]);
 }
 
